@@ -152,6 +152,8 @@ def make_spec(rng, nn_only, timedep):
             n2 = s.get_hc_op_name(n1) if rng.random() < 0.5 else C10.op_names(s, rng, 'fermionic' if s.op_needs_JW(n1) else 'bosonic')
         if n2 is None or s.op_needs_JW(n1) != s.op_needs_JW(n2) or not C10.neutral([(s, n1), (s, n2)]):
             continue
+        if any(t['kind'] == 'coupling' and t['dx'] == dx and {t['n1'], t['n2']} == {n1, n2} for t in spec):
+            continue  # (two copies of one coupling with time-dependent strengths can cancel exactly: H(t) = 0 cannot be built)
         a = complex(np.round(rng.uniform(0.3, 1.2) * rng.choice([-1, 1]), 2), np.round(rng.standard_normal(), 2) if rng.random() < 0.3 else 0)
         b = float(np.round(rng.uniform(-1, 1), 2)) if timedep else 0.
         spec.append({'kind': 'coupling', 'n1': n1, 'n2': n2, 'dx': dx, 'a': a, 'b': b})
@@ -296,6 +298,16 @@ def run_engine(ctx, engine_cls, model_kind, site, L, spec, psi0, opts, runs, tim
     return eng, led
 
 
+def exc_key(tag, e, opts, sites, spec, v0, t0):
+    """Mechanism key of an exception raised by an engine."""
+    kp = opts.get('Krylov_params')
+    if kp is not None and 'mpo' not in kp and 'NaN' in str(e) + repr(e):
+        if np.linalg.norm(dense_H(sites, spec, t0) @ v0) < 1e-10:
+            # H|psi> = 0: the Krylov vector H|psi> of the basis extension is the zero state, its normalisation gives NaN
+            return 'TDVP:krylov-basis-extension:raises-ValueError-NaN:state-annihilated-by-H'
+    return '%s:raises-%s' % (tag, type(e).__name__)
+
+
 def engine_case(ctx, i, engine_name, opts, model_kind, nn_only, expected_order, unitary, tangent, allow_timedep=True):
     """Common driver: builds model + state, runs the engine at dt and dt/2, applies all monitors."""
     import tenpy.algorithms as alg
@@ -306,7 +318,10 @@ def engine_case(ctx, i, engine_name, opts, model_kind, nn_only, expected_order, 
     timedep = engine_name.startswith('TimeDependent')
     site, kind, L, spec = make_spec(rng, nn_only, timedep)
     sites = [site] * L
-    entangled = bool(rng.random() < 0.5) or engine_name in ('QRBasedTEBDEngine', 'SingleSiteTDVPEngine', 'TimeDependentSingleSiteTDVP')
+    entangled = (bool(rng.random() < 0.5) or engine_name in ('QRBasedTEBDEngine', 'SingleSiteTDVPEngine', 'TimeDependentSingleSiteTDVP')
+                 # variational compression sweeps over the bonds of its initial guess (psi itself): charge sectors a long-range term
+                 # needs on several bonds at once are out of reach of its local updates from a product state (limit of the method)
+                 or opts.get('compression_method') == 'variational')
     psi0, v0 = initial_state(rng, sites, entangled)
     mask = sector_of(sites, v0)
     imaginary = bool(rng.random() < 0.15) and not timedep and engine_name not in ('QRBasedTEBDEngine', ) and opts.pop('_allow_imag', True)
@@ -340,7 +355,7 @@ def engine_case(ctx, i, engine_name, opts, model_kind, nn_only, expected_order, 
         tb = traceback.format_exc()
         if '/tenpy/' not in tb:
             raise
-        ctx.violation('%s:raises-%s' % (tag, type(e).__name__), tb[-700:], case)
+        ctx.violation(exc_key(tag, e, opts, sites, spec, v0, start_time), tb[-700:], case)
         return
     n_tot = runs * N_steps
     # ---- ledger: evolved time
@@ -426,7 +441,7 @@ def engine_case(ctx, i, engine_name, opts, model_kind, nn_only, expected_order, 
                     tb = traceback.format_exc()
                     if '/tenpy/' not in tb:
                         raise
-                    ctx.violation('%s:raises-%s' % (tag, type(e).__name__), tb[-700:], case)
+                    ctx.violation(exc_key(tag, e, opts, sites, spec, v0, start_time), tb[-700:], case)
                     return
                 ref2 = exact_evolution(sites, spec, v0, start_time, dt / 2**k, 2**k * n_tot, timedep)
                 if imaginary:
@@ -483,11 +498,13 @@ def engine_case(ctx, i, engine_name, opts, model_kind, nn_only, expected_order, 
             tb = traceback.format_exc()
             if '/tenpy/' not in tb:
                 raise
-            ctx.violation('%s:raises-%s' % (tag, type(e).__name__), tb[-700:], case)
+            ctx.violation(exc_key(tag, e, opts, sites, spec, v0, start_time), tb[-700:], case)
             return
         ctx.count('split.checked')
         d = float(np.linalg.norm(v3 - v) / np.linalg.norm(v))
-        if d > 1e-8 or abs(eng3.evolved_time - eng.evolved_time) > 1e-12:
+        # (the basis extension of TDVP runs once per run() call: it changes the tangent space and with it the O(dt^2) error terms)
+        dtol = 1e-8 if 'Krylov_params' not in opts else max(1e-8, 3 * err1)
+        if d > dtol or abs(eng3.evolved_time - eng.evolved_time) > 1e-12:
             ctx.violation(tag + ':result-depends-on-split-into-run-calls', '%d runs of %d steps vs one run of %d steps: states differ by %r, '
                           'evolved_time %r vs %r' % (runs, N_steps, n_tot, d, eng.evolved_time, eng3.evolved_time), case)
     ctx.sig((engine_name, kind, L, imaginary, truncating, entangled, tuple(sorted((k, str(v)) for k, v in opts.items()
